@@ -911,7 +911,9 @@ func c20EntityOrder(r *fw.Rec, blk int) {
 	nums := rng.Perm(40)
 	var mdIDs []int
 	for i := 0; i < 2+rng.Intn(4); i++ {
-		id := nums[i] * (1 + rng.Intn(3))
+		// (one in three far up: around 2^31 and just below 2^32, where a number
+		// packed into a narrower or signed key would change its place)
+		id := nums[i]*(1+rng.Intn(3)) + []int{0, 0, 0, 0, 1<<31 - 60, 1<<32 - 200}[rng.Intn(6)]
 		dup := false
 		for _, o := range mdIDs {
 			dup = dup || o == id
@@ -929,7 +931,7 @@ func c20EntityOrder(r *fw.Rec, blk int) {
 	}
 	var agIDs []int
 	for i := 0; i < 2+rng.Intn(4); i++ {
-		id := nums[10+i] * (1 + rng.Intn(3))
+		id := nums[10+i]*(1+rng.Intn(3)) + []int{0, 0, 0, 0, 1<<31 - 60, 1<<32 - 200}[rng.Intn(6)]
 		dup := false
 		for _, o := range agIDs {
 			dup = dup || o == id
